@@ -7,15 +7,21 @@ PROP = {
              "2^32-1, network ids -239,-3,0,+-1,int32 bounds): wallet.New(...).GetAddress, GenerateWalletAddress and the hash of "
              "GenerateStateInit's cell vs the extracted model (code BOCs translated from models.go, parsed by the model parser, Gallina "
              "SHA-256); public keys of 0/1/31/33/64 bytes; pairs differing in one option; mnemonic -> key -> v4r2 address; "
-             "(2) NextMessageParams (hook) for every version x account none / uninit / frozen / active with data of the version's layout "
-             "(seqno 0,1,2^32-1, 33-bit values for v5 beta, truncated data, trailing bits, non-empty dictionary, missing dictionary "
-             "reference): seqno and attached state-init hash vs model; (3) SendV2 against a scripted blockchain interface: account state or "
+             "(2) NextMessageParams (hook) for every version x account none / uninit / frozen / active; active data covers everything the "
+             "CONTRACT can store, built independently of the library (bit layout per version + a dictionary encoder written from the "
+             "Hashmap TL-B schema with a random label form per edge): seqno 0,1,2,2^31-1,2^31,2^32-2,2^32-1 (33-bit values for v5 beta), "
+             "default and non-default sub-wallet / wallet ids, signature-allowed flag both ways, 0..3 installed v4 plugins (264-bit "
+             "keys, empty values), v5 beta extensions (256 -> 8 bits), v5r1 extensions (256 -> 1 bit), highload old queries (64-bit "
+             "keys), keys sharing long prefixes; plus truncated data, trailing bits, missing dictionary reference: seqno, attached "
+             "state-init hash AND the library's decoding of the data struct (seqno, id, key, flag, last-cleaned, dictionary keys in "
+             "order) vs the model's decode_data; (3) SendV2 against a scripted blockchain interface: account state or "
              "state error x 0..3 messages (sometimes max+1) x send error x waiting 0 / 200 ms x seven poll histories (advance at the first, "
              "second, fourth poll, after errors, never, always error, lower-then-equal): result and the projection of the captured message "
              "(destination, attached state-init hash, seqno in the body, message count) vs model with the logical clock i*wait/10. Oracles "
              "on the implementation: the three APIs agree, address = hash of the state-init cell, workchain = requested, no two different "
              "(version, key, workchain, resolved ids) share an address and equal ones do, init attached iff not active (highload: iff "
-             "none/uninit) with seqno 0, seqno in the message = seqno of the data, verdict of the send determined by the script alone, "
+             "none/uninit) with seqno 0, for every well-formed active data cell NextMessageParams returns the stored seqno without init and "
+             "the decoded struct equals the stored fields, seqno in the message = seqno of the data, verdict of the send determined by the script alone, "
              "expiry within now+3min, every chain question is about the wallet's own address, nothing sent on state error / too many "
              "messages. A class is (kind, version, options / account flavour / wait / history, outcome)."),
     'explanation': ("coq/Properties/C15.v, for the Gallina model of newWallet, the data structs, generateStateInit/generateAddress, the three "
@@ -23,8 +29,10 @@ PROP = {
                     "scripted history: the address is (int32 workchain, hash of the cell 00110 ^code ^data) with the data laid out bit by bit; "
                     "the APIs are the same function; under hash injectivity on state-init cells and distinct code cells the address "
                     "determines version, key, int32 workchain and the id fields, and conversely (so it differs exactly when one differs), "
-                    "with the default sub-wallet id 698983191+workchain and the v5r1 wallet-id XOR characterised; active => stored seqno and "
-                    "no init, otherwise own init and seqno 0 (highload: init iff none/uninit); for EVERY poll history the send returns Ok iff "
+                    "with the default sub-wallet id 698983191+workchain and the v5r1 wallet-id XOR characterised; the data struct of every "
+                    "version decodes every well-formed data cell (any seqno, ids, key, flag, any dictionary with distinct keys of the key "
+                    "width and values of the value width) to exactly its fields (C15_decode_wellformed_data, through C05's dictionary "
+                    "theorems), so active => stored seqno and no init whatever plugins/extensions are installed, otherwise own init and seqno 0 (highload: init iff none/uninit); for EVERY poll history the send returns Ok iff "
                     "some poll before the deadline reports a seqno above the sent one, else the timeout error; the message is addressed to "
                     "the wallet itself. coq/Properties/C15_gen.v re-checks on today's source that every accepted version's code BOC parses "
                     "to one root, that the twelve code hashes are pairwise distinct (hence codes_distinct), the constants and the Version "
@@ -48,7 +56,7 @@ META = {
              "otherwise; for every history of GetSeqno answers, errors and clock readings the confirming send returns Ok iff some poll "
              "before the deadline reports a greater seqno, else the timeout error; the message goes to the wallet's own address. The "
              "extracted model reproduces the implementation's addresses (all versions and option sets), NextMessageParams results and "
-             "SendV2 outcomes/payload projections against a scripted blockchain interface (~220 quick / ~1300 thorough cases)."),
+             "SendV2 outcomes/payload projections against a scripted blockchain interface (~270 quick / ~1300 thorough cases)."),
     'design_ref': 'DESIGN.md §6 C14/C15, §7 F10',
     'note': ("One defect repaired in /repo (F10: the confirmation loop skipped every successful GetSeqno answer and always timed out). "
              "Trusted: Coq kernel, extraction, drivers, Go harness, the translator (go/ast copy of the code strings and constants)."),
